@@ -368,6 +368,20 @@ func Generate(seed uint64, opt core.Options) *Script {
 			nodes = append(nodes, nd{next, s})
 			next++
 		}
+		// now and then a late child of the anchor: the anchor root then has slot nodes in several
+		// epochs, so that justified checkpoints (anchor, 1..3) exist and concurrent updates can differ
+		rootMax := 0
+		if rng.Chance(1, 2) {
+			s := 9 + rng.Intn(5)
+			sc.Prefix = append(sc.Prefix, Op{"block", []int{1, next, s, 0, 0}})
+			nodes = append(nodes, nd{next, s})
+			next++
+		}
+		for _, op := range sc.Prefix {
+			if op.K == "block" && op.A[0] == 1 && op.A[2] > rootMax {
+				rootMax = op.A[2]
+			}
+		}
 		for i := 0; i < rng.Intn(4); i++ {
 			n := nodes[rng.Intn(len(nodes))]
 			sc.Prefix = append(sc.Prefix, Op{"att", []int{rng.Intn(6), n.l, n.s}})
@@ -377,6 +391,15 @@ func Generate(seed uint64, opt core.Options) *Script {
 			for i := 0; i < per; i++ {
 				n := nodes[rng.Intn(len(nodes))]
 				m := nodes[rng.Intn(len(nodes))]
+				if rootMax >= 8 && rng.Chance(1, 4) {
+					// updates that differ between tasks: justified (anchor, epoch 1..3), finalized (anchor, 0)
+					e := 1 + rng.Intn(rootMax/4)
+					ops = append(ops, Op{"update", []int{n.l, 1, e, 1, 0}})
+					if rng.Bool() {
+						ops = append(ops, Op{"justified", nil})
+					}
+					continue
+				}
 				switch rng.Pick([]int{5, 2, 6, 5, 2, 2, 2, 1, 1, 1, 2, 1, 1, 1, 2}) {
 				case 0:
 					s := n.s + 1 + rng.Intn(2)
